@@ -134,7 +134,9 @@ impl Driver for HistDriver {
             }
             Path::Registry => {
                 let h = Histogram::with_opts(opts).unwrap();
+                prometheus::verif::set_map_seed(Some(1));
                 let r = Registry::new();
+                prometheus::verif::set_map_seed(None);
                 r.register(Box::new(h.clone())).unwrap();
                 HistShared { h, vec: None, reg: Some(r) }
             }
